@@ -141,7 +141,7 @@ def handleNames (kind blocks mint maxt matchers without : String) : String :=
   match parseSpecBlocks blocks, parseReq mint maxt matchers without false with
   | some bs, some r =>
     match kindOf kind, bs with
-    | "tsdb", db :: _ => "ok " ++ showNats "," (StoreSpec.canonNats (StoreSpec.tsdbLabelNames db r))
+    | "tsdb", db :: _ => "ok " ++ showNats "," (StoreSpec.sortNatsDup (StoreSpec.tsdbLabelNames db r))
     | "bkt", _ :: _ => "ok " ++ showNats "," (StoreSpec.canonNats (StoreSpec.bucketLabelNames bs r))
     | _, _ => "bad-op"
   | _, _ => "bad-op"
